@@ -68,9 +68,19 @@ func concurrentCmd(job []byte, out *Out) error {
 	}
 	inputs := make([][]byte, 3)
 	modes := []string{"uni", "bias", "periodic"}
+	// three different lengths (different padded FFT sizes, block counts, ...), all windows of ONE capture with the
+	// neighbouring window right behind each of them (cap > len), as a caller slicing a long recording would pass them
+	lens := []int{j.NBytes, j.NBytes/2 + 3, 2*j.NBytes + 1}
+	capture := make([]byte, 0, lens[0]+lens[1]+lens[2])
 	for i := range inputs {
-		inputs[i] = genBytes(modes[i], j.NBytes, j.Seed+int64(i))
+		capture = append(capture, genBytes(modes[i], lens[i], j.Seed+int64(i))...)
 	}
+	off := 0
+	for i := range inputs {
+		inputs[i] = capture[off : off+lens[i]]
+		off += lens[i]
+	}
+	captureHash := sha256.Sum256(capture)
 	probe := genBytes("uni", 2500, 4242)
 	probeRes := make([]string, 18)
 	for t := 1; t <= 17; t++ {
@@ -99,8 +109,12 @@ func concurrentCmd(job []byte, out *Out) error {
 			hashes[i] = sha256.Sum256(inputs[i])
 		}
 		sharedBits := make([][]bool, 3)
+		bitCapture := randomness.B2bitArr(capture)
+		bitSnap := append([]bool(nil), bitCapture...)
+		boff := 0
 		for i := range inputs {
-			sharedBits[i] = randomness.B2bitArr(inputs[i])
+			sharedBits[i] = bitCapture[boff : boff+8*len(inputs[i])]
+			boff += 8 * len(inputs[i])
 		}
 		var mu sync.Mutex
 		mismatch, calls := 0, 0
@@ -140,6 +154,15 @@ func concurrentCmd(job []byte, out *Out) error {
 			wg.Wait()
 		}
 		mutated := false
+		if sha256.Sum256(capture) != captureHash {
+			mutated = true
+		}
+		for k := range bitCapture {
+			if bitCapture[k] != bitSnap[k] {
+				mutated = true
+				break
+			}
+		}
 		for i := range inputs {
 			if sha256.Sum256(inputs[i]) != hashes[i] {
 				mutated = true
